@@ -6,6 +6,7 @@ package main
 // path as unsupported (reported inconclusive, never as success).
 
 import (
+	"crypto/ed25519"
 	"go/types"
 	"strconv"
 
@@ -41,9 +42,29 @@ func (e *Exec) bencodeMarshal(v Value) []*Term {
 }
 
 func init() {
-	// ed25519.Verify: any outcome (over-approximation; signatures are not the subject where this is used)
+	// ed25519.Verify: concrete arguments use the real function; otherwise an uninterpreted *function* of
+	// (key, message, signature) - the same triple always verifies the same way, different triples are
+	// unrelated (no algebraic facts about signatures are assumed).
 	reg("crypto/ed25519.Verify", func(e *Exec, c *frame, fn *ssa.Function, a []Value) Value {
-		e.stubUsed("crypto/ed25519.Verify: returns an arbitrary boolean (over-approximation)")
-		return e.freshVar("sigok", 0)
+		k, m, sg := e.byteTerms(a[0].(Slice)), e.byteTerms(a[1].(Slice)), e.byteTerms(a[2].(Slice))
+		if len(k) != 32 {
+			panic(e.goPanic("ed25519: bad public key length: " + strconv.Itoa(len(k))))
+		}
+		if len(sg) != 64 {
+			return e.tt.False
+		}
+		all := append(append(append([]*Term{}, k...), m...), sg...)
+		if allConst(all) {
+			raw := func(ts []*Term) []byte {
+				b := make([]byte, len(ts))
+				for i, t := range ts {
+					b[i] = byte(t.c)
+				}
+				return b
+			}
+			return e.tt.Bool(ed25519.Verify(raw(k), raw(m), raw(sg)))
+		}
+		e.stubUsed("crypto/ed25519.Verify: uninterpreted function of (key, message, signature)")
+		return e.tt.App("uf_ed25519_verify_len"+strconv.Itoa(len(m)), BoolSort, all...)
 	})
 }
